@@ -290,6 +290,12 @@ impl<'a> StagesBuilder<'a> {
         let new_reads = new_reads.into_iter();
         let new_writes = new_writes.into_iter();
 
+        // Dependencies placed in front of the barrier are satisfied by the barrier
+        // itself; the scan below never visits their stages to cross them off.
+        for stage in 0..self.barrier {
+            self.remove_ids(stage, new_dep);
+        }
+
         (self.barrier..self.stages.len())
             .map(|stage| {
                 let conflict = Self::find_conflict(
